@@ -75,7 +75,7 @@ def describe(tier):
                 "receiver model recovers; L: the record histories of depth<=2 (thorough 3) spoken by two live OpenSSL endpoints for 17 negotiable classes; "
                 "A: all table suites x valid versions x EtM/hs-secret variants, fixed 10-record history (+16384 for class "
                 f"representatives); B: per class ({len(classes())} classes) every application-record history of depth<={n} over "
-                "{c,s} x {0,1,block-boundary,300}; C: handshake-shape deviations k<=2; D: 3 segmentations x IPv4/IPv6. "
+                "{c,s} x {0,1,block-boundary,300}; A also: sender-chosen explicit AEAD nonces (random / counter from 1 / high bits) for every TLS 1.2 GCM/CCM suite; C: handshake-shape deviations k<=2 (incl. abbreviated handshakes, 0.5-RTT data, tickets, padding, the first ciphertext byte of the Finished records); D: 3 segmentations x IPv4/IPv6, full-duplex and merged-segment captures, TCP FIN on the last data segment / in segments of its own, 300 records per direction. "
                 "non-trivial: both directions exported >=1 byte (layers A,C,D) or the history contains >=2 records (B); distinct "
                 "= distinct scenario descriptors. states = nodes of the history trees (B), transitions = edges",
         "exhaustive": True,
